@@ -3,7 +3,10 @@
 P=$(readlink -f "$1"); PROP=$2; TIER=${3:-quick}
 cd /repo || exit 2
 git apply "$P" || { echo "patch does not apply"; exit 2; }
+cp /verif/evidence/$PROP.json /tmp/evidence-$PROP.keep 2>/dev/null
 cd /verif && ./check "$PROP" --tier "$TIER" > /tmp/mut.out 2>&1; RC=$?
+# the evidence file must describe the unchanged tree: put it back
+[ -f /tmp/evidence-$PROP.keep ] && mv /tmp/evidence-$PROP.keep /verif/evidence/$PROP.json
 grep -c "^VIOLATION" /tmp/mut.out | sed "s/^/violation lines: /"
 grep "^VIOLATION" /tmp/mut.out | cut -c1-330 | head -${4:-4}
 tail -n 1 /tmp/mut.out | cut -c1-300
